@@ -172,6 +172,11 @@ pub struct HS {
     state: u64,
 }
 const GOLD: u64 = 0x9E37_79B9_7F4A_7C15;
+impl Default for HB {
+    fn default() -> HB {
+        HB { kind: 0, id: 0 }
+    }
+}
 impl BuildHasher for HB {
     type Hasher = HS;
     fn build_hasher(&self) -> HS {
